@@ -533,6 +533,15 @@ class SymBool:
         return SymBool(z3.Xor(self.e, _b(o)))
     __rxor__ = __xor__
 
+    # C-style arithmetic on truth values (``c += a < b``): decide, then add
+    def __int__(self):
+        return int(bool(self))
+
+    def __add__(self, o):
+        return int(bool(self)) + o
+
+    __radd__ = __add__
+
     def __invert__(self):
         return SymBool(z3.Not(self.e))
 
